@@ -20,6 +20,7 @@ RULE = ("cases: device configurations assembled from a shuffled list of sections
         "interface sets, member networks per referencing address) and is compared with acls(), aces() and "
         "addrgroups(); metamorphic: re-indenting and inserting comment lines does not change the result. "
         "Non-trivial: >= 2 ACLs, or a binding, or a referenced group; distinct by canonical configuration")
+RULE += ". Directed classes added after the seeded-change rounds: ACL names that are parts of one another (and '') in the filter; NX-OS 'any' members; sub-interface headings with a link type; repeated section headers"
 ASSUMPTIONS = ["ACL sections have >= 1 body line and unique names; group names are unique; no nested group-object",
                "refsem reads the rendered ACL text; IOS group members are subnet masks, ACE addresses wildcards"]
 
